@@ -44,6 +44,7 @@ type item struct {
 	until   time.Duration // before the Put: wait until caseStart+until (0 = no wait)
 	chain   int           // the task re-Puts itself chain times (fresh ids id+1 … id+chain), like sess.update
 	chainIv time.Duration
+	busy    time.Duration // the task keeps its worker busy that long (a slow update), so that timer firings and arrivals pile up behind it
 }
 
 type spec struct {
@@ -78,28 +79,32 @@ type caseRun struct {
 	panicked string
 }
 
-func (c *caseRun) task(id int, chain int, iv time.Duration) func() {
+func (c *caseRun) task(id int, chain int, iv, busy time.Duration) func() {
 	return func() {
 		at := time.Since(c.origin)
 		c.mu.Lock()
 		c.execs = append(c.execs, execRec{id, int64(at)})
 		c.mu.Unlock()
 		if c.cnt[id].Add(1) == 1 {
-			c.first.Add(1)
 			if chain > 0 { // re-Put from inside the worker goroutine, as sess.update does
-				c.put(id+1, time.Now().Add(iv), chain-1, iv)
+				c.put(id+1, time.Now().Add(iv), chain-1, iv, busy)
 			}
+			if busy > 0 {
+				for end := time.Now().Add(busy); time.Now().Before(end); {
+				}
+			}
+			c.first.Add(1)
 		}
 	}
 }
 
-func (c *caseRun) put(id int, deadline time.Time, chain int, iv time.Duration) {
+func (c *caseRun) put(id int, deadline time.Time, chain int, iv, busy time.Duration) {
 	dl := int64(deadline.Sub(c.origin))
 	at := int64(time.Since(c.origin))
 	c.mu.Lock()
 	c.puts = append(c.puts, putRec{id, dl, at})
 	c.mu.Unlock()
-	c.s.Put(c.task(id, chain, iv), deadline)
+	c.s.Put(c.task(id, chain, iv, busy), deadline)
 }
 
 func waitUntil(t time.Time) {
@@ -141,7 +146,7 @@ func runCase(sp *spec) (c *caseRun) {
 				} else {
 					dl = start.Add(it.off)
 				}
-				c.put(it.id, dl, it.chain, it.chainIv)
+				c.put(it.id, dl, it.chain, it.chainIv, it.busy)
 			}
 		}(plan)
 	}
@@ -175,7 +180,7 @@ func logDur(g *hx.Rng, maxOff time.Duration) time.Duration {
 	return d
 }
 
-var patterns = []string{"equal", "decr", "incr", "past", "now", "mix", "chain", "race", "far"}
+var patterns = []string{"equal", "decr", "incr", "past", "now", "mix", "chain", "race", "pile", "far"}
 
 func genSpec(g *hx.Rng, idx int, pat string, tier string) *spec {
 	ks := []int{1, 2, 16}
@@ -272,7 +277,7 @@ func genSpec(g *hx.Rng, idx int, pat string, tier string) *spec {
 			for j := 0; j < nch; j++ {
 				links := 3 + g.Intn(20)
 				iv := logDur(g, maxOff/time.Duration(links+1)+time.Microsecond)
-				it := item{id: next(), relNow: true, chain: links, chainIv: iv}
+				it := item{id: next(), relNow: true, chain: links, chainIv: iv, busy: time.Duration(g.Intn(2)) * time.Duration(g.Intn(50)) * time.Microsecond}
 				id += links
 				plan = append(plan, it)
 			}
@@ -287,11 +292,13 @@ func genSpec(g *hx.Rng, idx int, pat string, tier string) *spec {
 			for j := 0; j < per; j++ {
 				d := 30*time.Microsecond + logDur(g, 2*time.Millisecond)
 				jit := time.Duration(g.Intn(60000)-30000) * time.Nanosecond
+				busy := time.Duration(g.Intn(3)) * time.Duration(g.Intn(80)) * time.Microsecond
 				if j == 0 {
-					plan = append(plan, item{id: next(), off: d})
+					plan = append(plan, item{id: next(), off: d, busy: busy})
 				} else {
-					// Put at (deadline of the previous task) + jitter
-					plan = append(plan, item{id: next(), until: t + jit, off: t + d})
+					// Put at (deadline of the previous task) + jitter; the previous task may still
+					// keep the worker busy, so "timer fired" and "task arrived" are both pending
+					plan = append(plan, item{id: next(), until: t + jit, off: t + d, busy: busy})
 				}
 				t += d
 			}
@@ -300,6 +307,33 @@ func genSpec(g *hx.Rng, idx int, pat string, tier string) *spec {
 			}
 			sp.plans = append(sp.plans, plan)
 		}
+	case "pile":
+		// one worker; per round: B waits in the heap (timer armed for it), an overdue busy task A
+		// occupies the worker while B's timer fires AND a new future task C arrives: when A
+		// returns, "timer fired" and "task arrived" are both pending at the select — the schedule
+		// the stop/drain/reset dance (and the `drained` flag) exists for
+		sp.k = 1
+		rounds := 3 + g.Intn(12)
+		if tier != "quick" {
+			rounds = 10 + g.Intn(100)
+		}
+		var plan []item
+		for r := 0; r < rounds; r++ {
+			T := time.Duration(r+1) * (700*time.Microsecond + time.Duration(g.Intn(600))*time.Microsecond)
+			if r > 0 {
+				T = plan[len(plan)-1].off + 300*time.Microsecond + time.Duration(g.Intn(600))*time.Microsecond
+			}
+			busy := 60*time.Microsecond + time.Duration(g.Intn(140))*time.Microsecond
+			bDl := T + 5*time.Microsecond + time.Duration(g.Intn(int(busy-20*time.Microsecond)))
+			cAt := T + 15*time.Microsecond + time.Duration(g.Intn(int(busy-20*time.Microsecond)))
+			cDl := T + busy + 100*time.Microsecond + time.Duration(g.Intn(400))*time.Microsecond
+			plan = append(plan,
+				item{id: next(), until: T - 250*time.Microsecond, off: bDl},
+				item{id: next(), until: T, relNow: true, off: -time.Microsecond, busy: busy},
+				item{id: next(), until: cAt, off: cDl})
+		}
+		sp.plans = append(sp.plans, plan)
+		sp.maxOff = plan[len(plan)-1].off + time.Millisecond
 	case "far": // far-future tasks first, nearer ones behind them
 		sp.background = true
 		far := 1200*time.Millisecond + time.Duration(g.Intn(1300))*time.Millisecond
@@ -332,7 +366,7 @@ func (sp *spec) key() string {
 	for _, pl := range sp.plans {
 		sb.WriteString("|")
 		for _, it := range pl {
-			fmt.Fprintf(&sb, "%d:%v:%d:%d:%d;", it.id, it.relNow, it.off, it.until, it.chain)
+			fmt.Fprintf(&sb, "%d:%v:%d:%d:%d:%d;", it.id, it.relNow, it.off, it.until, it.chain, it.busy)
 		}
 	}
 	return sb.String()
@@ -353,7 +387,7 @@ func (sp *spec) replay(seed uint64, tier string) []string {
 			if it.relNow {
 				rel = "now"
 			}
-			fmt.Fprintf(&sb, " [id %d at>=%v deadline %s%+v chain %d/%v]", it.id, it.until, rel, it.off, it.chain, it.chainIv)
+			fmt.Fprintf(&sb, " [id %d at>=%v deadline %s%+v chain %d/%v busy %v]", it.id, it.until, rel, it.off, it.chain, it.chainIv, it.busy)
 		}
 		r = append(r, sb.String())
 	}
@@ -559,7 +593,7 @@ func Run(o *hx.Out, g *hx.Rng, tier string) {
 		mode, map[string]int{"sync": 0, "async": 1}[mode], gd, runtime.NumCPU(), lateBound, quiescence))
 	o.Res.Rule = "distinct generated plans (pattern, k, per-producer deadline sequences); every case runs a fresh NewTimedSched in real time"
 
-	ncase, nfar, tmScripts, tmLen := 45, 3, 2, 24
+	ncase, nfar, tmScripts, tmLen := 112, 3, 3, 24
 	budget := 60 * time.Second
 	if tier != "quick" {
 		ncase, nfar, tmScripts, tmLen = 400, 12, 10, 40
